@@ -139,15 +139,16 @@ theorem C12_steady_never_suspected (b : Int) (N : Nat) (ts : List Nat) (hN : 0 <
   have hx' : x ∈ intervalsOf b pre := mem_of_mem_lastN hx
   exact (hall x (hsplit ▸ mem_intervalsOf_append b pre post hx')).1
 
-/-- `C12_accuracy` at the threshold production uses (`suspicionThreshold` extracted from
-`pkg/gossip/gossip.go`): a window whose samples are within a factor 20 of the silence allowed
-never makes `UpdateLiveness` see `suspicionLevel > suspicionThreshold`. -/
+/-- `C12_accuracy` at the threshold production uses (`θ` = `suspicionThreshold` extracted from
+`pkg/gossip/gossip.go`, whatever its value): a window whose samples are within a factor `θ` of the
+silence allowed never makes `UpdateLiveness` see `suspicionLevel > suspicionThreshold`. -/
 theorem C12_accuracy_threshold (b : Int) (N : Nat) (ts : List Nat) (hN : 0 < N) (hne : ts ≠ [])
+    (θ : Nat) (hfact : Facts.suspicionThreshold = some θ)
     (lo hi : Int) (hlo : 0 < lo)
-    (hwin : ∀ x ∈ lastN N (intervalsOf b ts), lo ≤ x ∧ x ≤ hi) (hθ : hi ≤ 20 * lo)
+    (hwin : ∀ x ∈ lastN N (intervalsOf b ts), lo ≤ x ∧ x ≤ hi) (hθ : hi ≤ (θ : Int) * lo)
     (t : Nat) (ht : (t : Int) ≤ (ts.getLast hne : Nat) + hi) :
-    ∃ p, (windowOf b N ts).phi t = .ok p ∧ ¬ p.gt (Facts.suspicionThreshold.getD 0) := by
-  obtain ⟨p, h1, _, h3⟩ := C12_accuracy b N ts hN hne lo hi 20 hlo hwin (by simpa using hθ) t ht
+    ∃ p, (windowOf b N ts).phi t = .ok p ∧ ¬ p.gt θ := by
+  obtain ⟨p, h1, _, h3⟩ := C12_accuracy b N ts hN hne lo hi θ hlo hwin hθ t ht
   exact ⟨p, h1, h3⟩
 
 /-- Completeness: whatever the window holds, a silent peer is eventually suspected: there is
@@ -163,10 +164,10 @@ theorem C12_completeness (b : Int) (N : Nat) (ts : List Nat) (hN : 0 < N) (hb : 
 
 /-- `C12_completeness` at the extracted production threshold. -/
 theorem C12_completeness_threshold (b : Int) (N : Nat) (ts : List Nat) (hN : 0 < N) (hb : 0 < b)
-    (hinc : ts.Pairwise (· < ·)) (hne : ts ≠ []) :
+    (hinc : ts.Pairwise (· < ·)) (hne : ts ≠ []) (θ : Nat) (hfact : Facts.suspicionThreshold = some θ) :
     ∃ T : Nat, ∀ t : Nat, ts.getLast hne + T ≤ t →
-      ∃ p, (windowOf b N ts).phi t = .ok p ∧ p.gt (Facts.suspicionThreshold.getD 0) := by
-  obtain ⟨T, _, h⟩ := C12_completeness b N ts hN hb hinc hne 20
+      ∃ p, (windowOf b N ts).phi t = .ok p ∧ p.gt θ := by
+  obtain ⟨T, _, h⟩ := C12_completeness b N ts hN hb hinc hne θ
   exact ⟨T, fun t ht => by obtain ⟨p, h1, h2, _⟩ := h t ht; exact ⟨p, h1, h2⟩⟩
 
 /-- The detector keeps, for every node, exactly the window of that node's own arrivals since
@@ -195,7 +196,8 @@ theorem C12_facts_sample_size : ∃ n, Facts.fdSampleSize = some n ∧ 0 < n := 
 
 theorem C12_facts_bootstrap : ∃ k : Nat, Facts.fdBootstrapMultiplier = some k ∧ 0 < k := by decide
 
-theorem C12_facts_threshold : Facts.suspicionThreshold = some FD.suspicionThreshold := by decide
+theorem C12_facts_threshold :
+    Facts.suspicionThreshold = some FD.suspicionThreshold ∧ 0 < FD.suspicionThreshold := by decide
 
 /-- the guards the theorems assume are the ones production establishes: the extracted sample
 size is positive, and the bootstrap interval `Interval * k` is positive for every positive
@@ -313,25 +315,24 @@ theorem C12_silent_peer_marked_unreachable
   intro d' hd' hb' hs' q hq
   exact tick_isolated hwf _ _ now q (suspectedBy_congr (hd' q hq) hb' hs' θ now)
 
-/-- … at the extracted production threshold: silence `T = ⌊20·sum/size⌋ + 1`, i.e. just over twenty
-mean inter-arrival times. -/
+/-- … at the extracted production threshold `θ` (`Facts.suspicionThreshold`, 20 on the pinned tree):
+silence `T = ⌊θ·sum/size⌋ + 1`, i.e. just over `θ` mean inter-arrival times. -/
 theorem C12_silent_peer_marked_unreachable_threshold
     (s : CState) (hwf : C11.WF s) (p : String) (n : NodeSt)
     (hf : s.nodes.find p = some n) (hid : p ≠ s.localId) (hl : n.left = false) (hu : n.unreachable = false)
     (d : Detector) (b : Int) (N : Nat) (ts : List Nat) (hN : 0 < N) (hb : 0 < b)
     (hinc : ts.Pairwise (· < ·)) (hne : ts ≠ [])
-    (hwin : d.windows.find p = some (windowOf b N ts)) (T : Nat)
-    (hT : (T : Int) = 20 * (lastN N (intervalsOf b ts)).sum / ((min ts.length N : Nat) : Int) + 1)
+    (hwin : d.windows.find p = some (windowOf b N ts))
+    (θ : Nat) (hfact : Facts.suspicionThreshold = some θ) (T : Nat)
+    (hT : (T : Int) = (θ : Int) * (lastN N (intervalsOf b ts)).sum / ((min ts.length N : Nat) : Int) + 1)
     (now : Nat) (hnow : ts.getLast hne + T ≤ now) :
-    ∃ n', (livenessTick d (Facts.suspicionThreshold.getD 0) now s).1.nodes.find p = some n' ∧
+    ∃ n', (livenessTick d θ now s).1.nodes.find p = some n' ∧
       n'.unreachable = true ∧ n'.expiry = some (now + nodeExpiry) ∧
-      Event.unreachable p ∈ (livenessTick d (Facts.suspicionThreshold.getD 0) now s).2 ∧
-      (∀ m ∈ liveNodes (livenessTick d (Facts.suspicionThreshold.getD 0) now s).1, m.id ≠ p) ∧
-      n' ∈ unreachableNodes (livenessTick d (Facts.suspicionThreshold.getD 0) now s).1 := by
+      Event.unreachable p ∈ (livenessTick d θ now s).2 ∧
+      (∀ m ∈ liveNodes (livenessTick d θ now s).1, m.id ≠ p) ∧
+      n' ∈ unreachableNodes (livenessTick d θ now s).1 := by
   obtain ⟨_, n', h1, h2, _, _, _, h6, _, h8, _, h10, h11, _⟩ :=
-    C12_silent_peer_marked_unreachable s hwf p n hf hid hl d b N ts hN hb hinc hne hwin
-      (Facts.suspicionThreshold.getD 0) T
-      (by rw [show Facts.suspicionThreshold.getD 0 = 20 from rfl]; exact_mod_cast hT) now hnow
+    C12_silent_peer_marked_unreachable s hwf p n hf hid hl d b N ts hN hb hinc hne hwin θ T hT now hnow
   exact ⟨n', h1, h2, h6 hu, h8.mpr hu, h10, h11⟩
 
 /-- the premise of the isolation clause holds for whatever the detector hears **about `p`**
@@ -376,22 +377,21 @@ theorem C12_steady_peer_stays_live
     tick_clears hwf (suspectedBy d θ now) now hf hid hl hs
   exact ⟨hs, n', h1, h5, h3, h2, h4, h7, h6, h8, h9, h10, h11⟩
 
-/-- … at the extracted production threshold (`C12_accuracy_threshold`): not flagged while the
-silence is at most twenty times the smallest sample in the window. -/
+/-- … at the extracted production threshold `θ` (`C12_accuracy_threshold`): not flagged while the
+silence is at most `θ` times the smallest sample in the window. -/
 theorem C12_steady_peer_stays_live_threshold
     (s : CState) (hwf : C11.WF s) (p : String) (n : NodeSt)
     (hf : s.nodes.find p = some n) (hid : p ≠ s.localId) (hl : n.left = false) (hu : n.unreachable = false)
     (d : Detector) (b : Int) (N : Nat) (ts : List Nat) (hN : 0 < N) (hne : ts ≠ [])
     (hwin : d.windows.find p = some (windowOf b N ts))
+    (θ : Nat) (hfact : Facts.suspicionThreshold = some θ)
     (lo : Int) (hlo : 0 < lo) (hsamples : ∀ x ∈ lastN N (intervalsOf b ts), lo ≤ x)
-    (now : Nat) (hnow : (now : Int) ≤ (ts.getLast hne : Nat) + 20 * lo) :
-    (livenessTick d (Facts.suspicionThreshold.getD 0) now s).1.nodes.find p = some n ∧
-    Event.unreachable p ∉ (livenessTick d (Facts.suspicionThreshold.getD 0) now s).2 ∧
-    n ∈ liveNodes (livenessTick d (Facts.suspicionThreshold.getD 0) now s).1 := by
+    (now : Nat) (hnow : (now : Int) ≤ (ts.getLast hne : Nat) + (θ : Int) * lo) :
+    (livenessTick d θ now s).1.nodes.find p = some n ∧
+    Event.unreachable p ∉ (livenessTick d θ now s).2 ∧
+    n ∈ liveNodes (livenessTick d θ now s).1 := by
   obtain ⟨_, n', h1, _, _, _, _, h6, _, _, h9, h10, _⟩ :=
-    C12_steady_peer_stays_live s hwf p n hf hid hl d b N ts hN hne hwin lo
-      (Facts.suspicionThreshold.getD 0) hlo hsamples now
-      (by rw [show Facts.suspicionThreshold.getD 0 = 20 from rfl]; exact_mod_cast hnow)
+    C12_steady_peer_stays_live s hwf p n hf hid hl d b N ts hN hne hwin lo θ hlo hsamples now hnow
   have := h6 hu
   subst this
   exact ⟨h1, h9, h10⟩
@@ -463,7 +463,7 @@ theorem C12_never_heard_peer (s : CState) (hwf : C11.WF s) (p : String) (n : Nod
 /-! ### non-vacuity with the production constants
 
 Window 50 (`Facts.fdSampleSize`), gossip interval 100 ms, bootstrap `2 × interval` = 200 ms
-(`Facts.fdBootstrapMultiplier`), threshold `Facts.suspicionThreshold` = 20; times in ns.  Peer `p`
+(`Facts.fdBootstrapMultiplier`), threshold 20 (the pinned tree's `Facts.suspicionThreshold`); times in ns.  Peer `p`
 is heard every 100 ms, sixty times (the window has wrapped, the bootstrap sample is gone: fifty
 samples of 100 ms), last at 6 s, then silent; peer `q` was learnt from a digest and never heard. -/
 
@@ -488,45 +488,54 @@ example : c12Det.windows.find "p" = some (windowOf 200000000 50 c12Arrivals) ∧
       20 * (lastN 50 (intervalsOf 200000000 c12Arrivals)).sum / ((min c12Arrivals.length 50 : Nat) : Int) + 1 := by
   decide +kernel
 
-/-- … so the theorem applies at 8 s + 1 ns (all hypotheses discharged by evaluation) … -/
-example : ∃ n', (livenessTick c12Det (Facts.suspicionThreshold.getD 0) 8000000001 c12State).1.nodes.find "p" = some n' ∧
+/-- … so `C12_silent_peer_marked_unreachable` applies at 8 s + 1 ns with `θ = 20` (all hypotheses
+discharged by evaluation) … -/
+example : ∃ n', (livenessTick c12Det 20 8000000001 c12State).1.nodes.find "p" = some n' ∧
     n'.unreachable = true ∧ n'.expiry = some (8000000001 + nodeExpiry) ∧
-    Event.unreachable "p" ∈ (livenessTick c12Det (Facts.suspicionThreshold.getD 0) 8000000001 c12State).2 ∧
-    (∀ m ∈ liveNodes (livenessTick c12Det (Facts.suspicionThreshold.getD 0) 8000000001 c12State).1, m.id ≠ "p") ∧
-    n' ∈ unreachableNodes (livenessTick c12Det (Facts.suspicionThreshold.getD 0) 8000000001 c12State).1 :=
-  C12_silent_peer_marked_unreachable_threshold c12State (C11.wf_apply (C11.wf_init _ _) (.applyDigest _)) "p"
-    { id := "p", addr := "ap" } (by decide) (by decide) rfl rfl c12Det 200000000 50 c12Arrivals (by decide)
-    (by decide) (by decide +kernel) (by decide) (by decide +kernel) 2000000001 (by decide +kernel) 8000000001
-    (by decide +kernel)
+    Event.unreachable "p" ∈ (livenessTick c12Det 20 8000000001 c12State).2 ∧
+    (∀ m ∈ liveNodes (livenessTick c12Det 20 8000000001 c12State).1, m.id ≠ "p") ∧
+    n' ∈ unreachableNodes (livenessTick c12Det 20 8000000001 c12State).1 :=
+  by
+  obtain ⟨_, n', h1, h2, _, _, _, h6, _, h8, _, h10, h11, _⟩ :=
+    C12_silent_peer_marked_unreachable c12State (C11.wf_apply (C11.wf_init _ _) (.applyDigest _)) "p"
+      { id := "p", addr := "ap" } (by decide) (by decide) rfl c12Det 200000000 50 c12Arrivals (by decide)
+      (by decide) (by decide +kernel) (by decide) (by decide +kernel) 20 2000000001 (by decide +kernel) 8000000001
+      (by decide +kernel)
+  exact ⟨n', h1, h2, h6 rfl, h8.mpr rfl, h10, h11⟩
 
-/-- … and `C12_steady_peer_stays_live_threshold` applies at 8 s (every sample is 100 ms, the silence is
+/-- … and `C12_steady_peer_stays_live` (`θ = 20`) applies at 8 s (every sample is 100 ms, the silence is
 2 s = 20 × 100 ms) -/
-example : (livenessTick c12Det (Facts.suspicionThreshold.getD 0) 8000000000 c12State).1.nodes.find "p" =
+example : (livenessTick c12Det 20 8000000000 c12State).1.nodes.find "p" =
       some { id := "p", addr := "ap" } ∧
-    Event.unreachable "p" ∉ (livenessTick c12Det (Facts.suspicionThreshold.getD 0) 8000000000 c12State).2 ∧
+    Event.unreachable "p" ∉ (livenessTick c12Det 20 8000000000 c12State).2 ∧
     ({ id := "p", addr := "ap" } : NodeSt) ∈
-      liveNodes (livenessTick c12Det (Facts.suspicionThreshold.getD 0) 8000000000 c12State).1 :=
-  C12_steady_peer_stays_live_threshold c12State (C11.wf_apply (C11.wf_init _ _) (.applyDigest _)) "p"
-    { id := "p", addr := "ap" } (by decide) (by decide) rfl rfl c12Det 200000000 50 c12Arrivals (by decide)
-    (by decide) (by decide +kernel) 100000000 (by decide) (by decide +kernel) 8000000000 (by decide +kernel)
+      liveNodes (livenessTick c12Det 20 8000000000 c12State).1 :=
+  by
+  obtain ⟨_, n', h1, _, _, _, _, h6, _, _, h9, h10, _⟩ :=
+    C12_steady_peer_stays_live c12State (C11.wf_apply (C11.wf_init _ _) (.applyDigest _)) "p"
+      { id := "p", addr := "ap" } (by decide) (by decide) rfl c12Det 200000000 50 c12Arrivals (by decide)
+      (by decide) (by decide +kernel) 100000000 20 (by decide) (by decide +kernel) 8000000000 (by decide +kernel)
+  have := h6 rfl
+  subst this
+  exact ⟨h1, h9, h10⟩
 
 set_option maxRecDepth 100000 in
 /-- the level is exactly 20 at 8 s (not `> 20`: not flagged) and exceeds it one nanosecond later -/
-example : suspectedBy c12Det (Facts.suspicionThreshold.getD 0) 8000000000 "p" = false ∧
-    suspectedBy c12Det (Facts.suspicionThreshold.getD 0) 8000000001 "p" = true ∧
-    suspectedBy c12Det (Facts.suspicionThreshold.getD 0) 8000000001 "q" = false := by decide
+example : suspectedBy c12Det 20 8000000000 "p" = false ∧
+    suspectedBy c12Det 20 8000000001 "p" = true ∧
+    suspectedBy c12Det 20 8000000001 "q" = false := by decide
 
 set_option maxRecDepth 100000 in
 /-- the tick at 8 s changes nothing and notifies nothing … -/
-example : (livenessTick c12Det (Facts.suspicionThreshold.getD 0) 8000000000 c12State).2 = [] ∧
-    (liveNodes (livenessTick c12Det (Facts.suspicionThreshold.getD 0) 8000000000 c12State).1).map (·.id) =
+example : (livenessTick c12Det 20 8000000000 c12State).2 = [] ∧
+    (liveNodes (livenessTick c12Det 20 8000000000 c12State).1).map (·.id) =
       ["q", "p"] := by decide
 
 set_option maxRecDepth 100000 in
 /-- … the tick one nanosecond later flags `p` (expiry `nodeExpiry` later), notifies `OnUnreachable(p)`, and
 routes gossip rounds to `q` (live draw) and `p` (unreachable draw); `q` is not flagged -/
 example :
-    let r := livenessTick c12Det (Facts.suspicionThreshold.getD 0) 8000000001 c12State
+    let r := livenessTick c12Det 20 8000000001 c12State
     (r.1.nodes.find "p").map (fun n => (n.unreachable, n.expiry)) = some (true, some (8000000001 + nodeExpiry)) ∧
     r.2 = [.unreachable "p"] ∧ (liveNodes r.1).map (·.id) = ["q"] ∧
     (unreachableNodes r.1).map (·.id) = ["p"] ∧ (roundTargets r.1 7 3).map (·.id) = ["q", "p"] := by
@@ -535,8 +544,8 @@ example :
 set_option maxRecDepth 100000 in
 /-- heard again at 9 s: the tick at 9.5 s clears the flag and the expiry and notifies `OnReachable(p)` -/
 example :
-    let s₁ := (livenessTick c12Det (Facts.suspicionThreshold.getD 0) 8000000001 c12State).1
-    let r := livenessTick (c12Det.reportWithTimestamp "p" 9000000000).1 (Facts.suspicionThreshold.getD 0)
+    let s₁ := (livenessTick c12Det 20 8000000001 c12State).1
+    let r := livenessTick (c12Det.reportWithTimestamp "p" 9000000000).1 20
       9500000000 s₁
     (r.1.nodes.find "p").map (fun n => (n.unreachable, n.expiry)) = some (false, none) ∧
     r.2 = [.reachable "p"] := by
